@@ -5,7 +5,7 @@ cd /verif
 BASE=$(python3 -c "import json;print(json.load(open('engine/anchors.json'))['repo_commit'])")
 rc=0
 for d in refactorings/*/; do
-  id=$(basename $d)
+  id=$(basename $d); [ -f $d/patch.diff ] || continue
   b=$BASE; [ -f $d/base ] && b=$(cat $d/base)
   out=$(MAXL=4 engine/try_patch_fast.sh $b /verif/$d/patch.diff 2>&1 | grep -E "^(VIOLATED|UNPROVEN|try_patch: (patch|does))")
   if [ -n "$out" ]; then echo "FALSE-ALARM on $id:"; echo "$out" | cut -c1-300; rc=1; else echo "silent: $id"; fi
